@@ -99,7 +99,12 @@ OpSeq == <<
     NSetOp(NName("e"), Num(0), PlusEq, B),
     NSetOp(NName("e"), Num(0), PlusEq, Sn),
     NSetOp(NName("e"), Num(0), PlusEq, NList(<<Num(1)>>)),
-    NSetOp(NName("e"), Num(0), MulEq, NName("k")) >>
+    NSetOp(NName("e"), Num(0), MulEq, NName("k")),
+    \* positions that do not fit a machine word (list.insert / list.pop raise OverflowError below the cap; at the cap the size check comes first)
+    NCall("insert", <<A, NVal([t |-> "dec", sub |-> TRUE, sign |-> 0, digs |-> <<1>> \o [i \in 1..20 |-> 0], exp |-> 0]), Num(1)>>),
+    NCall("insert", <<A, NUn("-", NVal([t |-> "dec", sub |-> TRUE, sign |-> 0, digs |-> <<1>> \o [i \in 1..20 |-> 0], exp |-> 0])), Num(1)>>),
+    NCall("push", <<A, A>>),
+    NCall("insert", <<A, Num(0), A>>) >>
 NOps == Len(OpSeq)
 
 \* scenario: length index + a sequence of operation indices (0 = none)
